@@ -153,8 +153,10 @@ fn format_field(
             trailing_trivia = value.trailing_comments_search(CommentSearch::Single);
             let brackets = format_contained_span(ctx, brackets, shape);
 
-            let space_brackets =
-                starts_with_brackets_string(&format_expression(ctx, key, shape + 2));
+            // The key is formatted once; only a key that turns out to begin with a brackets string
+            // is formatted again, with room for the space that keeps `[ [[` apart
+            let formatted_key = format_expression(ctx, key, shape + 1); // 1 = "["
+            let space_brackets = starts_with_brackets_string(&formatted_key);
             let key = if space_brackets {
                 format_expression(ctx, key, shape + 2) // 2 = "[ "
                     .update_leading_trivia(FormatTriviaType::Append(vec![Token::new(
@@ -164,7 +166,7 @@ fn format_field(
                         TokenType::spaces(1),
                     )]))
             } else {
-                format_expression(ctx, key, shape + 1) // 1 = "["
+                formatted_key
             };
 
             // Get the new leading comments to add before the key, and the equal token
